@@ -225,14 +225,21 @@ def check_big_writes(ck, recs):
         if r["k"] != "wb":
             continue
         ck.count()
-        ck.nontrivial(("wb", r["op"], r["fn"], len(r["out"])))
+        ck.nontrivial(("wb", r["op"], r["fn"], len(r["out"]), r["out"][:40]))
         op, fn = r["op"], r["fn"]
         key = uvarint(fn << 3 | 2)
-        if op in (2, 3):
+        zz = lambda v: ((v << 1) ^ (v >> 63)) & (2**64 - 1)
+        if op in (0, 1):
+            exp = uvarint(fn << 3) + uvarint(int(r["vz"][0]))
+        elif op in (4, 5):
+            exp = uvarint(fn << 3) + uvarint(zz(int(r["vz"][0])))
+        elif op == 7:
+            exp = uvarint(fn << 3) + bytes([int(r["vz"][0])])
+        elif op in (2, 3):
             payload = b"".join(uvarint(int(v)) for v in r["vz"])
             exp = key + uvarint(len(payload)) + payload
         elif op in (6, 13):
-            payload = b"".join(uvarint((int(v) << 1) ^ (int(v) >> 63)) for v in r["vz"])
+            payload = b"".join(uvarint(zz(int(v))) for v in r["vz"])
             exp = key + uvarint(len(payload)) + payload
         elif op == 8:
             payload = bytes(int(v) for v in r["vz"])
